@@ -337,7 +337,7 @@ def rule_driver_loops(ctx):
                         from ..flow import reachable_with_const_bools
 
                         rb = reachable_with_const_bools(b, tb, avoid={sw.bb})
-                        if head not in rb and any(x not in blocks for x in rb):
+                        if (head not in rb or s.bb not in rb) and any(x not in blocks for x in rb):
                             exits_ok = True
             r.check(exits_ok, b.id + "|exit", "no-exit-on-none", "the loop leaves when the computer reports None / Maximal", "the driving loop has no exit on the computer's terminal state", s.loc())
     r.floor(n, 4, "loops driving a MaximalExtensionComputer")
